@@ -240,6 +240,15 @@ func (c *Ctx) specCall(name string, e *ast.CallExpr) (Value, bool) {
 		return Scalar(Select(arr, k.S), boolT), true
 	case "clock":
 		return Scalar(x.ghostInt(c.st, clockKey), types.Typ[types.Int]), true
+	case "be32", "le32":
+		// be32(s): the big-endian (little-endian) 32-bit value of the first four bytes of the byte slice s
+		v := c.eval(e.Args[0])
+		if v.Kind != KSlice {
+			panic(engineErr("%s(s): byte slice expected", name))
+		}
+		return Scalar(x.byteOrder32(name, v.Arr), types.Typ[types.Uint32]), true
+	case "sendattempts":
+		return Scalar(x.ghostInt(c.st, sendsKey), types.Typ[types.Int]), true
 	case "before":
 		// before(e), in a loop invariant: the value of e in the state just before the loop
 		if c.loopSpec == nil || c.fr == nil || c.fr.beforeLoop[c.loopSpec] == nil {
